@@ -1223,7 +1223,21 @@ func corpus() []Program {
 		{Deps: []int{2}, Sets: [][]ExprD{{src(1)}}, Prep: true, Val: 1, Fin: true},
 		{Deps: []int{0}, Sets: [][]ExprD{{src(2)}}, Prep: true, Val: 1, Fin: true},
 		{Deps: []int{}, Sets: [][]ExprD{{src(3)}}, Fin: true}}}
+	// root 0 registers root 1 which depends on 2 which depends on 3; the DSL of root 3
+	// registers 2 and 3: roots 2 and 3 run as dependencies before they are registered (3 first)
+	w3 := Program{Stream: "corpus", Regs: []int{0}, Roots: []RootD{
+		{Deps: []int{}, Sets: [][]ExprD{{src(1, regAct(1))}}, Prep: true, Val: 1, Fin: true},
+		{Deps: []int{2}, Sets: [][]ExprD{{src(2)}}, Prep: true, Val: 1, Fin: true},
+		{Deps: []int{3}, Sets: [][]ExprD{{src(3)}}, Prep: true, Val: 1, Fin: true},
+		{Deps: []int{}, Sets: [][]ExprD{{src(4, regAct(2), regAct(3))}}, Prep: true, Val: 1, Fin: true}}}
+	w4 := Program{Stream: "corpus", Regs: []int{4, 0}, Names: []string{"design", "zeta", "m", "alpha", "cors"}, Roots: []RootD{
+		{Deps: []int{}, Sets: [][]ExprD{{src(1)}, {src(2, regAct(1))}}, Fin: true},
+		{Deps: []int{0, 2}, Sets: [][]ExprD{{src(3)}}, Prep: true},
+		{Deps: []int{3, 0}, Sets: [][]ExprD{{src(4, regAct(2))}}, Val: 1},
+		{Deps: []int{0}, Sets: [][]ExprD{{}, {src(5, regAct(3))}}, Fin: true},
+		{Deps: []int{0}, Sets: [][]ExprD{{src(6)}}, Prep: true, Val: 1, Fin: true}}}
 	return []Program{
+		w3, w4, // dependencies executed before their own registration
 		plugin, // a plugin root named before the root it depends on
 		one([][]ExprD{{src(1, appendAct(1, src(2))), src(3)}, {src(4)}}), // later set: executed
 		late, self, two, lateCycle, errs, vfail, diamond,
@@ -1238,20 +1252,7 @@ func witnesses() []Program {
 		Sets: [][]ExprD{{src(1, appendAct(0, src(2)))}}}}}
 	w2 := Program{Stream: "witness", Regs: []int{0}, Roots: []RootD{{Deps: []int{}, Prep: true, Val: 1, Fin: true,
 		Sets: [][]ExprD{{src(1)}, {src(2, appendAct(0, src(3)))}}}}}
-	// root 0 registers root 1 which depends on 2 which depends on 3; the DSL of root 3
-	// registers 2 and 3: root 2 runs (as a dependency) before it is registered, and before 3
-	w3 := Program{Stream: "witness", Regs: []int{0}, Roots: []RootD{
-		{Deps: []int{}, Sets: [][]ExprD{{src(1, regAct(1))}}, Prep: true, Val: 1, Fin: true},
-		{Deps: []int{2}, Sets: [][]ExprD{{src(2)}}, Prep: true, Val: 1, Fin: true},
-		{Deps: []int{3}, Sets: [][]ExprD{{src(3)}}, Prep: true, Val: 1, Fin: true},
-		{Deps: []int{}, Sets: [][]ExprD{{src(4, regAct(2), regAct(3))}}, Prep: true, Val: 1, Fin: true}}}
-	w4 := Program{Stream: "witness", Regs: []int{4, 0}, Names: []string{"design", "zeta", "m", "alpha", "cors"}, Roots: []RootD{
-		{Deps: []int{}, Sets: [][]ExprD{{src(1)}, {src(2, regAct(1))}}, Fin: true},
-		{Deps: []int{0, 2}, Sets: [][]ExprD{{src(3)}}, Prep: true},
-		{Deps: []int{3, 0}, Sets: [][]ExprD{{src(4, regAct(2))}}, Val: 1},
-		{Deps: []int{0}, Sets: [][]ExprD{{}, {src(5, regAct(3))}}, Fin: true},
-		{Deps: []int{0}, Sets: [][]ExprD{{src(6)}}, Prep: true, Val: 1, Fin: true}}}
-	return []Program{w1, w2, w3, w4}
+	return []Program{w1, w2}
 }
 
 // hostile: inputs outside the generator's envelope; model and code are compared, the
